@@ -16,10 +16,10 @@ def UExpr.atomsClean : UExpr → Bool
   | .bang e => e.atomsClean
   | .paren e => e.atomsClean
 
-/-- the operand texts neither begin with an operator rune nor contain a fused `!` themselves
-    (true of numbers, strings, identifiers, variables; NOT of a named placeholder `:name`) -/
+/-- the operand texts do not begin with an operator rune other than `:` (a named placeholder `:name`) and do not
+    contain a fused `!` themselves (true of numbers, strings, identifiers, variables, placeholders) -/
 def UExpr.atomsNoOp : UExpr → Bool
-  | .atom t => !startsOp t && !hasBangFusion t
+  | .atom t => (!startsOp t || startsWith ':' t) && !hasBangFusion t
   | .neg e => e.atomsNoOp
   | .pos e => e.atomsNoOp
   | .bang e => e.atomsNoOp
@@ -74,11 +74,15 @@ theorem hbf_append_close (l : List Char) : hasBangFusion (l ++ [')']) = hasBangF
       have ih' : hasBangFusion (x :: (tl' ++ [')'])) = hasBangFusion (x :: tl') := by simpa using ih
       simp [hasBangFusion, ih']
 
-/-- the printed text of a tree begins with an operator rune only if it begins with `!` -/
+/-- the printed text of a tree begins with an operator rune only if it begins with `!` or `:` -/
 theorem startsOp_print (e : UExpr) (h : e.atomsNoOp = true) (hs : startsOp e.print = true) :
-    startsWith '!' e.print = true := by
+    (startsWith '!' e.print || startsWith ':' e.print) = true := by
   cases e with
-  | atom t => simp [UExpr.atomsNoOp, UExpr.print] at h hs; simp [h.1] at hs
+  | atom t =>
+    simp [UExpr.atomsNoOp, UExpr.print] at h hs ⊢
+    rcases h.1 with h1 | h1
+    · simp [h1] at hs
+    · exact Or.inr h1
   | neg e => simp only [UExpr.print] at hs; split at hs <;> simp [startsOp, opRune] at hs
   | pos e => simp [UExpr.print, startsOp, opRune] at hs
   | bang e => simp only [UExpr.print]; split <;> simp [startsWith]
